@@ -32,7 +32,7 @@ fn meta() -> Meta {
     Meta {
         id: "C19",
         level: "fault_enumeration",
-        rule: "for every configuration (naming x cleanup x write mode x 0/1 earlier run) the trace of file-system points of the history W W W5 W W R W F Reopen W5 W W is recorded fault-free; then every (site, occurrence) x burst in 1..3 is failed plus every pair of two single faults at different sites (quick: for the direct-mode configurations without earlier run; thorough: all); distinct_nontrivial = distinct (configuration, site, occurrence, burst) whose fault hits a rotation, cleanup, compression or initialisation step (not a plain write); plus 12 background-cleanup configurations under the scheduler's canonical schedule, real ENOSPC on the compression target (symlink to /dev/full planted at gz_create), a duplicate stream that is a full device for three records, and the current file on a full device (every failure reported, the empty file is not closed by the size criterion); the log directory removed for three records and re-created (no panic, reported, logging resumes); a rename that really fails because the target name is a directory; a start whose rename fails for real (name too long); buffered / asynchronous mode with the current file on a full device (rotation, shutdown, reopen_output, reset_flw; recovery after the device problem is over); the size criterion holds except for operations whose rotation attempt hit a fault; the failing-duplicate-stream scenario has a second writer (log_to_file_and_writer) whose file must hold every record",
+        rule: "for every configuration (naming x cleanup x write mode x 0/1 earlier run) the trace of file-system points of the history W W W5 W W R W F Reopen W5 W W is recorded fault-free; then every (site, occurrence) x burst in 1..3 is failed plus every pair of two single faults at different sites (quick: for the direct-mode configurations without earlier run; thorough: all); distinct_nontrivial = distinct (configuration, site, occurrence, burst) whose fault hits a rotation, cleanup, compression or initialisation step (not a plain write); plus 12 background-cleanup configurations under the scheduler's canonical schedule, real ENOSPC on the compression target (symlink to /dev/full planted at gz_create), a duplicate stream that is a full device for three records, and the current file on a full device (every failure reported, the empty file is not closed by the size criterion); the log directory removed for three records and re-created (no panic, reported, logging resumes); a rename that really fails because the target name is a directory; a start whose rename fails for real (name too long); buffered / asynchronous mode with the current file on a full device (rotation, shutdown, reopen_output, reset_flw; recovery after the device problem is over); the size criterion holds except for operations whose rotation attempt hit a fault; the failing-duplicate-stream scenario has a second writer (log_to_file_and_writer) whose file must hold every record; no file descriptor left (soft RLIMIT_NOFILE = 0: every open and every directory listing really fails with EMFILE, rename / remove work) for three rotating records between three before and three after, naming x {direct, buffered} x clock step {0, 1 s} x cleanup {none, KeepLogFiles}: no panic, nothing logged before is destroyed, losses reported, the records after are written",
         assumptions: vec![
             "a failing file-system call has no effect and returns an io::Error of kind PermissionDenied (never NotFound, which two rename sites treat as benign)".into(),
             "faults are injected through the guarded fs_point hook directly before the call (the sandbox runs as root, permission bits do not bite)".into(),
@@ -109,7 +109,169 @@ fn recovery() -> Vec<HOp> {
 }
 
 fn units(_tier: &str) -> usize {
-    grid().len() + dup_cases().len() + NG.len() + dir_cases().len() + 6 + 2 * (NG.len() + 3) + 1
+    grid().len() + dup_cases().len() + NG.len() + dir_cases().len() + RENAME_DIR_UNITS + fd_cases().len()
+}
+const RENAME_DIR_UNITS: usize = 6 + 2 * (NG.len() + 3) + 1;
+
+// ---------------------------------------------------------------- no file descriptor left
+
+fn fd_cases() -> Vec<(NamingK, ModeK, i64, CleanK)> {
+    let mut v = Vec::new();
+    for naming in NG {
+        for mode in [ModeK::Direct, ModeK::BufDont(16)] {
+            for step in [0, 1] {
+                for clean in [CleanK::Never, CleanK::Log(20)] {
+                    v.push((naming, mode, step, clean));
+                }
+            }
+        }
+    }
+    v
+}
+
+/// Runs `f` while the process cannot get a new file descriptor (soft RLIMIT_NOFILE = 0: every
+/// `open` and `read_dir` fails with EMFILE; descriptors that are open stay usable, `rename`,
+/// `stat` and `unlink` need none). The worker process runs one scenario at a time.
+fn without_descriptors<R>(f: impl FnOnce() -> R) -> Result<R, String> {
+    let mut lim = libc::rlimit { rlim_cur: 0, rlim_max: 0 };
+    // SAFETY: plain getrlimit / setrlimit on this process
+    if unsafe { libc::getrlimit(libc::RLIMIT_NOFILE, &mut lim) } != 0 {
+        return Err("getrlimit failed".into());
+    }
+    let zero = libc::rlimit { rlim_cur: 0, rlim_max: lim.rlim_max };
+    if unsafe { libc::setrlimit(libc::RLIMIT_NOFILE, &zero) } != 0 {
+        return Err("setrlimit failed".into());
+    }
+    let probe_fails = std::fs::File::open("/dev/null").is_err();
+    let r = std::panic::catch_unwind(std::panic::AssertUnwindSafe(f));
+    unsafe { libc::setrlimit(libc::RLIMIT_NOFILE, &lim) };
+    if !probe_fails {
+        return Err("a file could be opened although the descriptor limit is 0".into());
+    }
+    match r {
+        Ok(v) => Ok(v),
+        Err(p) => std::panic::resume_unwind(p),
+    }
+}
+
+/// W W W [no descriptor available] W W W [available again] W W W, size limit below one record
+/// (every write finds a rotation due), the clock advancing `step` seconds before every record.
+/// While no descriptor is available the directory cannot be listed and no file can be opened
+/// (rename and remove still work). Judged: no panic; every record logged *before* is still
+/// completely in some file (a rotation that cannot see the directory must not rename onto, or
+/// truncate, an existing file); if a record logged meanwhile is missing something was reported;
+/// the three records logged afterwards are in the files.
+fn run_fd_exhausted(naming: NamingK, mode: ModeK, step: i64, clean: CleanK) -> Result<usize, Fail> {
+    use crate::capture::FdCapture;
+    let env = Env::new("c19f");
+    env.enter();
+    let mut cfg = Cfg::rot(CritK::Size(LIMIT), naming, clean);
+    cfg.mode = mode;
+    // the error channel is stderr (captured): a file channel is opened for every message
+    let cap_path = env.root.path().join("stderr.txt");
+    let cap = FdCapture::start(2, cap_path.clone()).ok_or(Fail {
+        clause: "machinery",
+        detail: "cannot capture stderr".into(),
+    })?;
+    let built = cfg.logger(&env.dir, &env.err).error_channel(flexi_logger::ErrorChannel::StdErr).build();
+    let (logger, handle) = match built {
+        Ok(x) => x,
+        Err(e) => {
+            cap.restore();
+            return Err(Fail {
+                clause: "run-error",
+                detail: format!("build: {e}"),
+            });
+        }
+    };
+    let mut lines: Vec<Vec<u8>> = Vec::new();
+    let mut w = |n: usize, lines: &mut Vec<Vec<u8>>| {
+        for _ in 0..n {
+            env.clock.advance_secs(step);
+            let msg = crate::lg::payload(0, lines.len(), 19);
+            let mut l = msg.clone().into_bytes();
+            l.push(b'\n');
+            lines.push(l);
+            crate::lg::log_info(&*logger, &msg);
+            env.observe();
+        }
+    };
+    w(3, &mut lines);
+    if mode != ModeK::Direct {
+        handle.flush();
+    }
+    let errs0 = crate::lg::read_errchan(&cap_path).len();
+    let r = without_descriptors(|| w(3, &mut lines));
+    env.observe();
+    let errs_during = crate::lg::read_errchan(&cap_path).len().saturating_sub(errs0);
+    if let Err(e) = r {
+        cap.restore();
+        return Err(Fail { clause: "machinery", detail: e });
+    }
+    w(3, &mut lines);
+    handle.shutdown();
+    drop(logger);
+    let stderr_text = String::from_utf8_lossy(&cap.finish()).to_string();
+    env.leave();
+    let mut all = Vec::new();
+    let names = family::list_names(&env.dir);
+    for n in &names {
+        all.extend(std::fs::read(env.dir.join(n)).unwrap_or_default());
+    }
+    let has = |l: &Vec<u8>| all.windows(l.len()).any(|x| x == l.as_slice());
+    // (KeepLogFiles(20) never has anything to remove here; it makes the cleanup run, with a
+    // directory it cannot list)
+    for l in lines.iter().take(3) {
+        if !has(l) {
+            return Err(Fail {
+                clause: "earlier-record-destroyed",
+                detail: format!("record {:?}, logged and on disk before the process ran out of file descriptors, is in no file any more; files {names:?}; stderr {stderr_text:?}", String::from_utf8_lossy(l)),
+            });
+        }
+    }
+    let missing_during = lines[3..6].iter().filter(|l| !has(l)).count();
+    if missing_during > 0 && errs_during == 0 {
+        return Err(Fail {
+            clause: "not-reported",
+            detail: format!("{missing_during} of the three records logged while no file descriptor was available are in no file, and nothing was written to the error channel meanwhile; files {names:?}"),
+        });
+    }
+    for l in &lines[6..] {
+        if !has(l) {
+            return Err(Fail {
+                clause: "no-recovery",
+                detail: format!("descriptors are available again, three more records were logged, but {:?} is in no file: {names:?}; stderr {stderr_text:?}", String::from_utf8_lossy(l)),
+            });
+        }
+    }
+    Ok(errs_during.min(9) * 10 + missing_during)
+}
+
+fn run_fd_unit(idx: usize, unit: usize, out: &mut Out) {
+    let (naming, mode, step, clean) = fd_cases()[idx];
+    let case = json!({"unit": unit, "fd_exhausted": idx});
+    let cause = format!("no-file-descriptor/{}/{}/step{step}/{}", naming.short(), super::c08::mode_class(mode), if clean == CleanK::Never { "never" } else { "keeplog" });
+    let mut vs = Vec::new();
+    for _ in 0..2 {
+        out.evaluations += 1;
+        out.transitions += 9;
+        match run_isolated(Duration::from_secs(30), move || run_fd_exhausted(naming, mode, step, clean)) {
+            Ran::Done(Ok(n)) => {
+                out.outcome(format!("no descriptors: error lines={} lost meanwhile={}", n / 10, n % 10));
+                break;
+            }
+            Ran::Done(Err(f)) => vs.push(Violation::new(f.clause, cause.clone(), format!("naming {naming:?}, {mode:?}, cleanup {clean:?}, size limit {LIMIT}, clock step {step} s; history W W W [RLIMIT_NOFILE=0] W W W [restored] W W W\n  {}", f.detail), case.clone())),
+            Ran::Panicked(m) => vs.push(Violation::new("panic", cause.clone(), format!("naming {naming:?}, {mode:?}, cleanup {clean:?}; history W W W [RLIMIT_NOFILE=0] W W W [restored] W W W\n  a log call panicked: {m}"), case.clone())),
+            Ran::Hung => vs.push(Violation::new("hang", cause.clone(), String::new(), case.clone())),
+        }
+    }
+    out.state(&(unit, "fd"));
+    out.nontrivial(&(unit, "fd"));
+    if vs.len() == 2 && vs[0].key() == vs[1].key() {
+        out.violation(vs.remove(0));
+    } else if !vs.is_empty() {
+        out.violation(Violation::new("nondeterministic", "replay-diverged", vs[0].detail.clone(), case));
+    }
 }
 
 // ---------------------------------------------------------------- a rename that really fails
@@ -884,7 +1046,7 @@ fn run_dup_unit(idx: usize, unit: usize, out: &mut Out) {
     }
 }
 fn bounds(tier: &str) -> Value {
-    json!({"configurations": grid().len(), "history": format!("{:?}", word()), "bursts": [1, 2, 3], "second_order": tier != "quick", "failing_duplicate_stream_cases": dup_cases().len()})
+    json!({"configurations": grid().len(), "history": format!("{:?}", word()), "bursts": [1, 2, 3], "second_order": tier != "quick", "failing_duplicate_stream_cases": dup_cases().len(), "no_file_descriptor_cases": fd_cases().len()})
 }
 
 #[derive(Debug)]
@@ -1255,6 +1417,10 @@ fn judge_df(c: &Case, faults: &[FaultSpec], dev_full: Option<String>, unit: usiz
 
 fn run_unit(tier: &str, unit: usize, out: &mut Out) {
     let g = grid();
+    if unit >= g.len() + dup_cases().len() + NG.len() + dir_cases().len() + RENAME_DIR_UNITS {
+        run_fd_unit(unit - g.len() - dup_cases().len() - NG.len() - dir_cases().len() - RENAME_DIR_UNITS, unit, out);
+        return;
+    }
     if unit >= g.len() + dup_cases().len() + NG.len() + dir_cases().len() {
         run_rename_dir_unit(unit - g.len() - dup_cases().len() - NG.len() - dir_cases().len(), unit, out);
         return;
@@ -1366,6 +1532,12 @@ fn run_unit(tier: &str, unit: usize, out: &mut Out) {
 fn replay(case: &Value) -> Vec<Violation> {
     let g = grid();
     let unit = case["unit"].as_u64().unwrap_or(0) as usize;
+    if let Some(idx) = case["fd_exhausted"].as_u64() {
+        let mut out = Out::default();
+        println!("replay C19: no file descriptor available, case {:?}", fd_cases().get(idx as usize));
+        run_fd_unit(idx as usize, unit, &mut out);
+        return out.violations;
+    }
     if let Some(idx) = case["rename_dir"].as_u64() {
         let mut out = Out::default();
         println!("replay C19: the rename target is a directory, case {idx}");
